@@ -102,6 +102,8 @@ def run_array_cases(cases, res, stratum):
                 dm = (lib.codes_of(~(x & y)), lib.codes_of((~x) | (~y)), lib.codes_of(y))
             obs = {k: (A.fmt_of(v), lib.codes_of(v), lib.status3(v)[:2]) for k, v in got.items()}
             obs['~~'] = lib.codes_of(~(~x)); obs['x_after'] = lib.codes_of(x)
+            # in-place update of one element: x[0] ^= 1 (the operator result stored back by indexed assignment)
+            x2 = fx.Fxp(list(c['cxs']), s, n, nf, raw=True); x2[0] ^= 1; obs['inplace'] = lib.codes_of(x2)
         except Exception as e:
             res.fail(c, 'C13: a bitwise operator on an array of codes raised %s' % lib.exc_name(e), got=str(e)[:200]); continue
         cxs_, cys_ = list(c['cxs']), list(c.get('cys', []))
@@ -122,6 +124,9 @@ def run_array_cases(cases, res, stratum):
         if bad: continue
         if 'cys' in c and (dm[0] != dm[1] or dm[2] != (cys_ if cys_ else list(c['cys']))):
             res.fail(c, 'C13: De Morgan law violated on arrays (or the second operand was modified)', expected=dm[0], got=dm[1:]); continue
+        w0 = [code_of_pattern(s, n, (c['cxs'][0] & mask) ^ 1)] + list(c['cxs'][1:])
+        if obs['inplace'] != w0:
+            res.fail(c, 'C13: x[0] ^= 1 on an array of codes does not leave the XOR pattern in element 0 (and the other elements alone)', expected=w0, got=obs['inplace']); continue
         if not c.get('x0d') and (obs['~~'] != cxs_ or obs['x_after'] != cxs_):
             res.fail(c, 'C13: ~~x differs from x on an array (or the operand was modified)', expected=cxs_, got=(obs['~~'], obs['x_after'])); continue
         # the array model (Bitwise.fxp_bitwise_arr / fxp_invert_arr, theorems C13_arrays_*): same codes, no flag
